@@ -5,6 +5,9 @@ import Rsp.Spec.Addr
 import Rsp.Model.Crypt
 import Rsp.Spec.Rfc2865
 import Rsp.Hash.Md5
+import Rsp.Hash.Sha256
+import Rsp.Model.Log
+import Rsp.Spec.Log
 namespace Drive
 open Rsp
 
@@ -73,6 +76,42 @@ def parseOpt (ts : List String) : Option (Option Bytes) :=
   | ["ok", h] => (ofHex h).map some
   | _ => none
 
+def realHash : Log.HashFns := { sha256 := Hash.sha256, hmacSha256 := Hash.hmacSha256 }
+
+/-- optional token: "." absent, "-" empty, else hex -/
+def parseOptTok (t : String) : Option (Option Bytes) :=
+  if t = "." then some none else (ofHex t).map some
+
+def parseReplyLog (args : List String) : Option Log.ReplyLogIn :=
+  match args with
+  | [mode, key, fu, code, rqcode, user, station, cui, oper, rmsg] => do
+    let mode ← mode.toNat?
+    let key ← parseOptTok key
+    let code ← code.toNat?
+    let rqcode ← rqcode.toNat?
+    let user ← parseOptTok user
+    let station ← parseOptTok station
+    let cui ← parseOptTok cui
+    let oper ← parseOptTok oper
+    let rmsg ← parseOptTok rmsg
+    pure { code := code, rqCode := rqcode, userName := user, stationId := station, cui := cui, operatorName := oper,
+           replyMsg := rmsg, serverName := b! "srvX", clientName := b! "cliX", clientAddr := b! "127.0.0.1",
+           fullUser := fu = "1", mode := Log.MacMode.ofCode mode, key := key }
+  | _ => none
+
+def parseFticks (args : List String) : Option Log.FticksIn :=
+  match args with
+  | [mode, key, rep, acc, user, station, visinst] => do
+    let mode ← mode.toNat?
+    let key ← parseOptTok key
+    let user ← parseOptTok user
+    let station ← parseOptTok station
+    let visinst ← parseOptTok visinst
+    pure { accept := acc = "1", userName := user, stationId := station, prefix_ := b! "F-TICKS/test/1.0",
+           viscountry := b! "XX", visinst := visinst, clientName := b! "cliX", full := rep = "2",
+           mode := Log.MacMode.ofCode mode, key := key }
+  | _ => none
+
 def model (op : String) (args : List String) : String :=
   match op, args with
   | "decttl", [h] =>
@@ -106,6 +145,23 @@ def model (op : String) (args : List String) : String :=
     | _, _, _, _, _ => "bad-op"
   | "md5", [m] => match ofHex m with | some m => toHex (Hash.md5 m) | none => "bad-op"
   | "hmacmd5", [k, m] => match ofHex k, ofHex m with | some k, some m => toHex (Hash.hmacMd5 k m) | _, _ => "bad-op"
+  | "ascii", [h] => match ofHex h with
+    | some v => (match Log.attrAscii (some v) with | some r => toHex r | none => "null")
+    | none => "bad-op"
+  | "hashmac", [i, k, n] =>
+    match ofHex i, parseOptTok k, n.toNat? with
+    | some i, some k, some n => toHex (Log.hashmac realHash i k n)
+    | _, _, _ => "bad-op"
+  | "replylog", args =>
+    match parseReplyLog args with
+    | some i => (match Log.replyLogLine realHash i with | some l => toHex l | none => "nolog")
+    | none => "bad-op"
+  | "fticks", args =>
+    match parseFticks args with
+    | some i => toHex (Log.fticksLine realHash i)
+    | none => "bad-op"
+  | "sha256", [m] => match ofHex m with | some m => toHex (Hash.sha256 m) | none => "bad-op"
+  | "hmacsha256", [k, m] => match ofHex k, ofHex m with | some k, some m => toHex (Hash.hmacSha256 k m) | _, _ => "bad-op"
   | _, _ => "bad-op"
 
 def spec (op : String) (args impl : List String) : String :=
@@ -149,6 +205,28 @@ def spec (op : String) (args impl : List String) : String :=
     | some v, some os, some ns, some oa, some na, some r =>
       if Spec.msmpprecryptOk Hash.md5 v os ns oa na r then "ok" else "bad hidden-attribute-plaintext/len"
     | _, _, _, _, _, _ => "bad output-shape"
+  | "ascii", [h], [r] =>
+    match ofHex h, (if r = "null" then some [] else ofHex r) with
+    | some v, some r' => if (r = "null") == v.isEmpty && Spec.asciiOk v r' then "ok" else "bad not-printable-or-not-escape-of-input"
+    | _, _ => "bad output-shape"
+  | "hashmac", [i, k, n], [r] =>
+    match ofHex i, parseOptTok k, n.toNat?, ofHex r with
+    | some i, some k, some n, some r => if Spec.hashmacOk realHash i k n r then "ok" else "bad hashmac-field"
+    | _, _, _, _ => "bad output-shape"
+  | "replylog", args, [r] =>
+    match parseReplyLog args with
+    | some i =>
+      if r = "nolog" then (if (Log.replyLogLine realHash i).isNone then "ok" else "bad missing-log-line")
+      else match ofHex r with
+        | some l => Spec.replyLogVerdict realHash i l
+        | none => "bad output-shape"
+    | none => "bad-op"
+  | "fticks", args, [r] =>
+    match parseFticks args, ofHex r with
+    | some i, some l => Spec.fticksVerdict realHash i l
+    | _, _ => "bad output-shape"
+  | "sha256", [_], [_] => "ok"
+  | "hmacsha256", [_, _], [_] => "ok"
   | "md5", [_], [_] => "ok"
   | "hmacmd5", [_, _], [_] => "ok"
   | _, _, _ => "bad-op"
